@@ -1169,6 +1169,8 @@ struct json_object *json_tokener_parse_ex(struct json_tokener *tok, const char *
 		case json_tokener_state_array_add:
 			if (json_object_array_add(current, obj) != 0)
 			{
+				/* the element was not taken over by the array */
+				json_object_put(obj);
 				tok->err = json_tokener_error_memory;
 				goto out;
 			}
@@ -1295,6 +1297,8 @@ struct json_object *json_tokener_parse_ex(struct json_tokener *tok, const char *
 		case json_tokener_state_object_value_add:
 			if (json_object_object_add(current, obj_field_name, obj) != 0)
 			{
+				/* the value was not taken over by the object */
+				json_object_put(obj);
 				tok->err = json_tokener_error_memory;
 				goto out;
 			}
